@@ -19,6 +19,7 @@ type ptCase struct {
 	B       string `json:"b"`
 	Op      string `json:"op"`
 	Ctx     string `json:"ctx"`
+	ECtx    string `json:"ectx"`
 	Must    []int  `json:"must"`
 	Times   int    `json:"times"`
 	MustNot []int  `json:"mustnot"`
@@ -34,7 +35,14 @@ type ptData struct {
 func ptStmt(tc *ptCase) (stmt, after string) {
 	switch tc.Fam {
 	case "dupkey":
-		return fmt.Sprintf("local t = { %s = 1, %s = 2 }", tc.A, tc.B), "print(t)"
+		cons := fmt.Sprintf("{ %s = 1, %s = 2 }", tc.A, tc.B)
+		switch tc.ECtx {
+		case "arg":
+			return "print(" + cons + ")", ""
+		case "ret":
+			return "local function h() return " + cons + " end", "print(h)"
+		}
+		return "local t = " + cons, "print(t)"
 	case "assign", "localdef":
 		nt, nv := int(tc.A[0]-'0'), int(tc.B[0]-'0')
 		var vals []string
@@ -48,9 +56,31 @@ func ptStmt(tc *ptCase) (stmt, after string) {
 		names := []string{"l1", "l2", "l3"}[:nt]
 		return "local " + strings.Join(names, ", ") + " = " + strings.Join(vals, ", "), "print(" + strings.Join(names, ", ") + ")"
 	case "params":
-		return fmt.Sprintf("local function g(%s, %s, %s) end", tc.A, tc.B, tc.Op), "print(g)"
+		pl := fmt.Sprintf("(%s, %s, %s) end", tc.A, tc.B, tc.Op)
+		switch tc.ECtx {
+		case "anon":
+			return "local g = function" + pl, "print(g)"
+		case "arg":
+			return "print(function" + pl + ")", ""
+		case "gfunc":
+			return "function gg" + pl, ""
+		}
+		return "local function g" + pl, "print(g)"
 	case "binexp", "andfalse", "floateq":
-		return fmt.Sprintf("print(%s %s %s)", tc.A, tc.Op, tc.B), ""
+		e := fmt.Sprintf("%s %s %s", tc.A, tc.Op, tc.B)
+		switch tc.ECtx {
+		case "cond":
+			return "if " + e + " then print(1) end", ""
+		case "while":
+			return "while " + e + " do break end", ""
+		case "tbl":
+			return "local t = { k = " + e + " }", "print(t)"
+		case "ret":
+			return "local h = function() return " + e + " end", "print(h)"
+		case "index":
+			return "print(({})[" + e + "])", ""
+		}
+		return "print(" + e + ")", ""
 	case "dupif":
 		return fmt.Sprintf("if %s then elseif %s then elseif %s then end", tc.A, tc.B, tc.Op), ""
 	case "selfassign":
